@@ -203,3 +203,102 @@ package stake
 //@   modifies everything
 //@   assert@call(Reward,0): s0.RefundHeight <= height && $arg0 == s0.From && u($arg1) == s0.Power * 10^18 && $arg2 == true   [C12]
 //@   assert@call(DelFinality,0): s0.RefundHeight <= height                                                    [C12]
+
+// ---- block rewards (C13) ------------------------------------------------------------------------
+// every stake of the rewarded delegatee earns power x reward-per-power, issued to the reward object of the
+// stake's owner at the current height and written back on the consensus path
+
+//@ func (ctrler *StakeCtrler) doRewardTo(delegatee, height)
+//@   objinv ctrler != nil && ctrler.rewardLedger != nil && ctrler.govParams != nil
+//@   assumes cons_ok && blockHeight == height
+//@   requires height >= 0 && wf_delg(delegatee) && (forall i :: 0 <= i && i < len(delegatee.Stakes) ==> 0 <= delegatee.Stakes[i].Power && delegatee.Stakes[i].Power < 2^62)
+//@   modifies everything
+//@   preserves StakeCtrler.*, BlockContext.*, Delegatee.*, Stake.*, allelems(Delegatee.Stakes), cons_ok, blockHeight, govRwdPerPower, govLazyReward, govSignedWindow, govMinSigned, govSlashRatio
+//@   ensures result0 != nil && fresh(result0)
+//@   assert@call(Issue,0): u($arg1) == s0.Power * govRwdPerPower[ctrler.govParams] && $arg2 == height && ($arg0 == rwd_at(ctrler.rewardLedger, lkey(content(s0.From)), true) || fresh($arg0))   [C13]
+//@   assert@call(SetFinality,0): $arg0 == rwdObj                                                              [C13]
+//@   loop 0: modifies Reward.issued, Reward.height, mem(uint256.Int), allmaps(memItems.gotItems), itemkey, itemenc
+//@   loop 0: invariant cons_ok && blockHeight == height && ctrler.rewardLedger != nil && ctrler.govParams != nil && issuedReward != nil && fresh(issuedReward)
+//@   loop 0: invariant wf_delg(delegatee) && (forall i :: 0 <= i && i < len(delegatee.Stakes) ==> 0 <= delegatee.Stakes[i].Power && delegatee.Stakes[i].Power < 2^62)
+
+// ---- slashing (C14) ------------------------------------------------------------------------------
+// Each bonded stake loses floor(power*ratio/100) of its power; a stake for which that is < 1 keeps its power
+// object untouched and is taken off the list; nothing but the powers of this delegatee's stakes, its stake
+// list and its two totals changes. (Which elements the removal loop takes off the list, and the sums computed
+// by sumPowerOf, are outside this contract: see DESIGN.md, residue of C14.)
+//@ func (delegatee *Delegatee) doSlashAll(ratio)
+//@   nopanic
+//@   requires wf_delg(delegatee) && 0 <= ratio && ratio <= 100
+//@   requires forall i :: 0 <= i && i < len(delegatee.Stakes) ==> 0 <= delegatee.Stakes[i].Power && delegatee.Stakes[i].Power < 2^55
+//@   assumes forall i :: 0 <= i && i < len(delegatee.Stakes) ==> stakeidx(delegatee.Stakes[i]) == i
+//@   modifies delegatee.Stakes, elems(delegatee.Stakes), delegatee.SelfPower, delegatee.TotalPower, Stake.Power
+//@   allocates []*Stake
+//@   ensures wf_delg(delegatee)
+//@   ensures forall i :: 0 <= i && i < old(len(delegatee.Stakes)) && old(delegatee.Stakes[i].Power) * ratio / 100 >= 1 ==> old(delegatee.Stakes[i]).Power == old(delegatee.Stakes[i].Power) - old(delegatee.Stakes[i].Power) * ratio / 100   [C14]
+//@   ensures forall i :: 0 <= i && i < old(len(delegatee.Stakes)) && old(delegatee.Stakes[i].Power) * ratio / 100 < 1 ==> old(delegatee.Stakes[i]).Power == old(delegatee.Stakes[i].Power)   [C14]
+//@   ensures forall r :: !(0 <= stakeidx(r) && stakeidx(r) < old(len(delegatee.Stakes)) && old(delegatee.Stakes[stakeidx(r)]) == r) ==> as(r, ptr(Stake)).Power == old(as(r, ptr(Stake)).Power)   [C14]
+//@   loop 0: modifies Stake.Power, elems(removingStakes)
+//@   loop 0: invariant (arr(removingStakes) == 0 && cap(removingStakes) == 0) || loopfresh(arr(removingStakes))
+//@   loop 0: invariant delegatee.Stakes == old(delegatee.Stakes) && len(delegatee.Stakes) == old(len(delegatee.Stakes))
+//@   loop 0: invariant forall i :: 0 <= i && i < len(delegatee.Stakes) ==> delegatee.Stakes[i] == old(delegatee.Stakes[i]) && delegatee.Stakes[i] != nil
+//@   loop 0: invariant forall i :: 0 <= i && i <= rangeindex#0 && old(delegatee.Stakes[i].Power) * ratio / 100 >= 1 ==> delegatee.Stakes[i].Power == old(delegatee.Stakes[i].Power) - old(delegatee.Stakes[i].Power) * ratio / 100
+//@   loop 0: invariant forall i :: 0 <= i && i <= rangeindex#0 && old(delegatee.Stakes[i].Power) * ratio / 100 < 1 ==> delegatee.Stakes[i].Power == old(delegatee.Stakes[i].Power)
+//@   loop 0: invariant forall i :: rangeindex#0 < i && i < len(delegatee.Stakes) ==> delegatee.Stakes[i].Power == old(delegatee.Stakes[i].Power)
+//@   loop 0: invariant forall r :: !(0 <= stakeidx(r) && stakeidx(r) < old(len(delegatee.Stakes)) && old(delegatee.Stakes[stakeidx(r)]) == r) ==> as(r, ptr(Stake)).Power == old(as(r, ptr(Stake)).Power)
+//@   loop 0: invariant forall i :: 0 <= i && i < len(removingStakes) ==> removingStakes[i] != nil
+//@   loop 1: modifies delegatee.Stakes, elems(delegatee.Stakes)
+//@   loop 1: invariant wf_delg(delegatee) && arr(delegatee.Stakes) == old(arr(delegatee.Stakes)) && off(delegatee.Stakes) == old(off(delegatee.Stakes)) && len(delegatee.Stakes) <= old(len(delegatee.Stakes))
+//@   loop 1: invariant (arr(removingStakes) == 0 && cap(removingStakes) == 0) || fresh(arr(removingStakes))
+//@   loop 1: invariant forall i :: 0 <= i && i < len(removingStakes) ==> removingStakes[i] != nil
+
+//@ func (delegatee *Delegatee) DoSlash(ratio)
+//@   sameas (*Delegatee).doSlashAll
+
+// the evidence names the validator; exactly that delegatee (as stored on the consensus path) is slashed, by the
+// given ratio, and written back
+//@ func (ctrler *StakeCtrler) doPunish(evi, slashRatio)
+//@   objinv ctrler != nil && ctrler.delegateeLedger != nil
+//@   assumes cons_ok
+//@   requires evi != nil && 0 <= slashRatio && slashRatio <= 100
+//@   modifies everything
+//@   preserves StakeCtrler.*, BlockContext.*, Reward.*, Account.*, mem(uint256.Int), cons_ok, blockHeight, govRwdPerPower, govLazyReward, govSignedWindow, govMinSigned, govSlashRatio
+//@   assert@call(DoSlash,0): $arg0 == delg_at(ctrler.delegateeLedger, lkey(content(evi.Validator.Address)), true) && $arg1 == slashRatio   [C14]
+//@   assert@call(SetFinality,0): $arg0 == delg_at(ctrler.delegateeLedger, lkey(content(evi.Validator.Address)), true)   [C14]
+
+// ---- block begin: candidates, slashing, rewards, downtime (C10, C12, C13, C14) --------------------
+
+// candidate filter: a delegatee is a validator candidate iff its own stake meets the governance minimum
+//@ func (ctrler *StakeCtrler) BeginBlock__1(d)
+//@   nopanic
+//@   requires d != nil
+//@   assumes ctrler != nil && ctrler.govParams != nil
+//@   modifies ctrler.allDelegatees, elems(ctrler.allDelegatees)
+//@   allocates []*Delegatee
+//@   ensures result == nil
+//@   ensures d.SelfPower >= govMinValPower[ctrler.govParams] ==> len(ctrler.allDelegatees) == old(len(ctrler.allDelegatees)) + 1 && ctrler.allDelegatees[old(len(ctrler.allDelegatees))] == d   [C10]
+//@   ensures d.SelfPower < govMinValPower[ctrler.govParams] ==> ctrler.allDelegatees == old(ctrler.allDelegatees)   [C10]
+//@   ensures forall i :: 0 <= i && i < old(len(ctrler.allDelegatees)) ==> ctrler.allDelegatees[i] == old(ctrler.allDelegatees[i])   [C10]
+
+//@ func (sl *StakeLimiter) Reset(vals, maxValCnt, indiLimitRatio, upLimitRatio)
+//@   trusted
+//@   requires sl != nil
+//@   modifies StakeLimiter.*
+//@   allocates powerObj, []*powerObj
+
+//@ func (ctrler *StakeCtrler) BeginBlock(blockCtx)
+//@   objinv ctrler != nil && ctrler.delegateeLedger != nil && ctrler.frozenLedger != nil && ctrler.rewardLedger != nil && ctrler.govParams != nil && ctrler.stakeLimiter != nil
+//@   assumes cons_ok && blockHeight == bheight(blockCtx)
+//@   requires blockCtx != nil && blockCtx.GovHandler != nil && bheight(blockCtx) >= 1 && bheight(blockCtx) < 2^62
+//@   modifies everything
+//@   preserves StakeCtrler.delegateeLedger, StakeCtrler.frozenLedger, StakeCtrler.rewardLedger, StakeCtrler.govParams, StakeCtrler.stakeLimiter, BlockContext.*, cons_ok, blockHeight, govRwdPerPower, govLazyReward, govSignedWindow, govMinSigned, govSlashRatio
+//@   assert@call(doPunish,0): $arg2 == govSlashRatio[blockCtx.GovHandler]                                     [C14]
+//@   assert@call(ImmutableLedgerAt,0): $arg0 == (bheight(blockCtx) - 4 >= 1 ? bheight(blockCtx) - 4 : 1)           [C13]
+//@   assert@call(doRewardTo,0): vote.SignedLastBlock && $arg2 == bheight(blockCtx)                              [C13]
+//@   assert@call(ProcessNotSignedBlock,0): !vote.SignedLastBlock && $arg1 == bheight(blockCtx) - 1 && $arg0 == delg_at(ctrler.delegateeLedger, lkey(content(vote.Validator.Address)), true)   [C14]
+//@   assert@call(DelAllStakes,0): $arg0 == delg_at(ctrler.delegateeLedger, lkey(content(vote.Validator.Address)), true) && govSignedWindow[ctrler.govParams] - notSigned < govMinSigned[ctrler.govParams]   [C14]
+//@   assert@store(Stake.RefundHeight,0): $value == bheight(blockCtx) + govLazyReward[ctrler.govParams]          [C12,C14]
+//@   loop 0: invariant cons_ok && blockHeight == bheight(blockCtx) && bheight(blockCtx) == old(bheight(blockCtx)) && ctrler.delegateeLedger == old(ctrler.delegateeLedger) && ctrler.frozenLedger == old(ctrler.frozenLedger) && ctrler.rewardLedger == old(ctrler.rewardLedger) && ctrler.govParams == old(ctrler.govParams) && ctrler.stakeLimiter == old(ctrler.stakeLimiter) && blockCtx.GovHandler == old(blockCtx.GovHandler)
+//@   loop 1: invariant cons_ok && blockHeight == bheight(blockCtx) && bheight(blockCtx) == old(bheight(blockCtx)) && ctrler.delegateeLedger == old(ctrler.delegateeLedger) && ctrler.frozenLedger == old(ctrler.frozenLedger) && ctrler.rewardLedger == old(ctrler.rewardLedger) && ctrler.govParams == old(ctrler.govParams) && ctrler.stakeLimiter == old(ctrler.stakeLimiter) && blockCtx.GovHandler == old(blockCtx.GovHandler)
+//@   loop 1: invariant issuedReward != nil && immuDelegateeLedger != nil
+//@   loop 2: invariant cons_ok && blockHeight == bheight(blockCtx) && bheight(blockCtx) == old(bheight(blockCtx)) && ctrler.delegateeLedger == old(ctrler.delegateeLedger) && ctrler.frozenLedger == old(ctrler.frozenLedger) && ctrler.rewardLedger == old(ctrler.rewardLedger) && ctrler.govParams == old(ctrler.govParams) && ctrler.stakeLimiter == old(ctrler.stakeLimiter) && blockCtx.GovHandler == old(blockCtx.GovHandler)
+//@   loop 2: invariant issuedReward != nil && immuDelegateeLedger != nil
